@@ -124,8 +124,11 @@ WriteProgs == {[kind |-> "write", src |-> s, fault |-> f] : s \in {"mp", "ipa"},
 (* structured polynomials (unit vector, zero halves) at a few points: cheap for the reference, they have few non-zero terms *)
 IpaHalfProgs == {[kind |-> "ipa", label |-> "p", poly |-> pl, point |-> pt, results |-> <<"correct", "+1">>] :
                    pl \in (IF Quick THEN {PolyTab[5], PolyTab[9], PolyTab[10], PolyTab[11]} ELSE {}), pt \in {"3", "255", "256", "rnd1"}}
+(* the zero polynomial (identity commitment, all-identity proof, zero final scalar) and a constant: every result class and every proof change *)
+IpaZeroProgs == {[kind |-> "ipa", label |-> "p", poly |-> pl, point |-> pt, results |-> <<"correct", "+1", "-1", "rnd">> \o PfPerturb] :
+                   pl \in {PolyTab[3], PolyTab[6]}, pt \in (IF Quick THEN {"3", "256"} ELSE {"0", "3", "255", "256", "r-1", "rnd1"})}
 Progs == IF Part \in {"mp_honest", "mp_cpu", "mp_perturb", "mp_arrival"} THEN MpProgs
-         ELSE IF Part \in {"ipa", "ipa_few"} THEN SetToSeq(IpaProgs \cup IpaHalfProgs)
+         ELSE IF Part \in {"ipa", "ipa_few"} THEN SetToSeq(IpaProgs \cup IpaHalfProgs \cup IpaZeroProgs)
          ELSE IF Part = "codec" THEN SetToSeq(ReadProgs \cup WriteProgs)
          ELSE MpProgs \o SetToSeq(IpaProgs) \o SetToSeq(ReadProgs \cup WriteProgs)
 VARIABLE done
